@@ -8,6 +8,7 @@ pub mod drv;
 pub mod files;
 pub mod free;
 pub mod iso;
+pub mod layout;
 pub mod model;
 pub mod out;
 pub mod readers;
@@ -75,6 +76,7 @@ fn main() {
         "sched" => sched::child_main(&args),
         "free" => free::child_main(&args),
         "crash" => crash::child_main(&args),
+        "layout" => layout::child_main(&args),
         "cksum" => readers::c19_main(&args),
         "drive" => drive::main(&args),
         other => {
